@@ -13,6 +13,16 @@ impl BitWriter {
         }
     }
 
+    /// Verification hook: a writer whose output vector has room for `capacity` bytes.
+    #[cfg(jxl_oxide_verif)]
+    pub fn verif_with_capacity(capacity: usize) -> Self {
+        Self {
+            output: Vec::with_capacity(capacity),
+            buf: 0,
+            valid_buf_bits: 0,
+        }
+    }
+
     fn flush_buf(&mut self, next_buf: u64) {
         let out = self.buf;
         self.valid_buf_bits -= 64;
